@@ -180,6 +180,22 @@ theorem C08_supports_answers_partial (c : Collect) (parts : List Name) (hc : ∀
   | crash k => exact absurd h (h2 k)
   | outOfFuel => exact absurd h h1
 
+/-- … and with multiply-inheriting members too, once the fuel also covers the list that `supports` joins for them
+(`hfj`; that list is well formed and its OrLists are short because the collect's are — proved inside): `supports`
+answers for every request. -/
+theorem C08_supports_answers (c : Collect) (mult parts : List Name) (hc : ∀ h ∈ c, headWF h = true)
+    (hcov : ∀ n ∈ parts, n ∈ mult → ∃ h ∈ c, n ∈ leaves h)
+    (hsm : ∀ h ∈ c, smallOrT h) (hf : ∀ h ∈ c, capT h + 2 * szT h + 2 ≤ defaultFuel c)
+    (hfj : ∀ joined, joinLists c (mkEnts mult parts) = .ok joined →
+      capT (.and joined) + 2 * szT (.and joined) + 2 ≤ defaultFuel c) :
+    ∃ b, supports c mult parts = .ok b := by
+  have h1 := supports_fuel_all c mult parts hc hsm hf hfj
+  have h2 := C08_no_crash c mult parts hc hcov
+  cases h : supports c mult parts with
+  | ok b => exact ⟨b, rfl⟩
+  | crash k => exact absurd h (h2 k)
+  | outOfFuel => exact absurd h h1
+
 /-- the hypotheses are satisfiable: `a SUPERTYPE OF (ONEOF(b, c) ANDOR d)` -/
 example : ∀ parts, ∃ b, supports [.and [.simple 0, .andor [.or [.simple 1, .simple 2], .simple 3]]] [] parts = .ok b :=
   fun parts => C08_supports_answers_partial _ parts (by decide)
